@@ -149,6 +149,13 @@ pub fn check_case(c: &Case, rep: &mut Report) {
     }
     let tls_level = c.level == "tls";
     let tr = FragmentingReader::new(if tls_level { Vec::new() } else { stream.clone() }, sched);
+    // one case in three on the plain levels: read calls are interrupted now and then (EINTR: nothing transferred, the
+    // call is to be repeated); derived from the case's content so that a replay meets the same transport
+    let intr = [0usize, 0, 0, 0, 2, 3, 5, 0, 7][(crate::rng::fnv(format!("{:?}{}", c.schedule, total_len).as_bytes()) % 9) as usize];
+    if !tls_level {
+        tr.interrupt_every(intr);
+    }
+    let intr_probe = tr.clone();
     let probe = tr.clone();
     let frames = c.frames.clone();
     let mut viol: Vec<(String, String)> = Vec::new();
@@ -320,6 +327,7 @@ pub fn check_case(c: &Case, rep: &mut Report) {
     }
     rep.set("schedules", format!("{:?}", &c.schedule[..c.schedule.len().min(6)]));
     rep.set("classes", c.class.to_string());
+    rep.count("read_calls_interrupted", intr_probe.interrupted());
     if rep.want_sample() && total_len < 80 {
         let j = c.to_json();
         rep.sample(|| j);
